@@ -261,6 +261,10 @@ func (p *parser) readStructType() *Type {
 				}
 
 			} else {
+				if t.Kind != TypeEnum && len(t.Fields) > 0 {
+					// a bare name after typed fields: neither a struct nor an enum
+					return nil
+				}
 				t.Kind = TypeEnum
 				p.backup()
 			}
